@@ -99,7 +99,8 @@ SnapshotVerdict(s, s2) ==
   IF v = "ok" \/ (v = "Panic:Snapshot" /\ ~Strict
                     /\ (StaleStateShape(s) \/ DirConflictShape(s) \/ TrackedDirShape(s)))
               \/ (v = "SnapshotOK" /\ ~Strict /\ (StaleIgnoredShape(s) \/ ThroughSymlinkShape(s)))
-              \/ (v = "Error:Snapshot" /\ ~Strict /\ NotDirShape(s)) THEN "" ELSE v
+              \/ (v = "Error:Snapshot" /\ ~Strict /\ NotDirShape(s))
+              \/ (v = "SnapshotOutsideSparse" /\ ~Strict /\ SparseClashShape(s)) THEN "" ELSE v
 CheckOutVerdict(s, new, s2) ==
   LET v == CheckOutContract(s, new, s2) IN
   IF v = "Panic:CheckOut" /\ ~Strict /\ UnsortedShape(s, new) THEN ""
